@@ -369,6 +369,10 @@ class Report:
             json.dump(ev, f, indent=1)
         for l in lines:
             print(l)
+        if not violation:
+            stale = os.path.join(replay_dir, f"{self.pid}.replay")
+            if os.path.exists(stale):
+                os.remove(stale)
         if violation:
             print(violation)
             return 1
